@@ -75,6 +75,7 @@ CFG = {
         "the corollary 'every observer of a WF value is consistent' rests on C01/C03/C04/C07 (other families)",
         'RoaringTreemap::deserialize_from, no proof gap: C13_t_no_panic, C13_t_reads_declared, the lifting step C13_64_lift (if the checked 32-bit decoder only returns wf32 values, the checked treemap decoder only returns values with strictly ascending u32 keys whose partitions are wf32 and not the empty bitmap, the rest is a suffix, no panic) and the full statement C13_64 (ok => Treemap.WFd Bitmap.WF value (Treemap.TWF: keys strictly ascending u32s, every partition Bitmap.WF and non-empty) and rest is a suffix; error => not a panic; C13_64_statement_holds) are proved unconditionally for every byte string (the inherited 32-bit hypothesis Kernel.runStore_wf is discharged); C13_t_reserialize: an accepted treemap has a strictly ascending u64 element list with partition-wise membership and re-serialises to a stream that every decoder configuration decodes to the same value. The loop counter is the declared u64 count itself (structural recursion, no fuel): a count larger than the data ends in eof',
         'accepted-but-not-conformant 64-bit streams (descending / repeated bucket keys: the map sorts them, a repeated key keeps the later bucket) yield well-formed values; C13 allows that outcome, it is pinned in corpus/C13/t-key-order.ops',
+        'model-fidelity audit (notes/fidelity-codecs.md): the checked decoders (32-bit: post-validation `any(is_empty)` then `windows(2)` on keys; 64-bit: u64 count loop, empty buckets skipped, repeated key replaces) are classified M (mirrored); no simplification found',
     ],
     "level_text": "Lean 4 theorems over the model of the checked decoder: for every byte string the result is an error or a "
                   "well-formed value together with a suffix of the input (never a panic, never a read past the declared "
